@@ -916,6 +916,7 @@ def arm_wiring(P, fn_qual, enum_short, expect, what='call', call_rx=None, arg=0,
 
 def _first_in_arm(body, o, start, crx, arg, what):
     seen = set()
+    flags = {}
     bi = start
     while bi not in seen:
         seen.add(bi)
@@ -928,6 +929,17 @@ def _first_in_arm(body, o, start, crx, arg, what):
         t = b['term']
         if what == 'call' and t['k'] == 'call' and (crx is None or call_matches(t, crx)):
             return o.arg_str(t, arg)
+        # `if matches!(x, V) {..} else {..}`: the arm sets a bool flag that a later two-way branch reads; follow the edge the flag selects
+        for st in b['st']:
+            rv = st['rv']
+            if not st['lhs']['p'] and rv['k'] == 'use' and rv['o']['k'] == 'const' and rv['o']['v'].get('ty') == 'bool':
+                flags[st['lhs']['l']] = str(rv['o']['v'].get('v'))
+            elif not st['lhs']['p'] and rv['k'] == 'use' and rv['o']['k'] in ('copy', 'move') and not rv['o']['pl']['p'] and rv['o']['pl']['l'] in flags:
+                flags[st['lhs']['l']] = flags[rv['o']['pl']['l']]
+        if t['k'] == 'switch' and t['d']['k'] in ('copy', 'move') and not t['d']['pl']['p'] and t['d']['pl']['l'] in flags and len(t['ts']) == 1:
+            v, tgt = t['ts'][0]
+            bi = tgt if str(v) == flags[t['d']['pl']['l']] else t['o']
+            continue
         nx = body.succs(bi)
         if len(nx) != 1:
             return None
